@@ -191,6 +191,7 @@ class Histories(Facet):
 
 class KillPoints(Facet):
     name = "kill_points"
+    fuzz_runs = 0  # every case spawns processes: too slow for a coverage-guided campaign
 
     def budget(self, tier):
         return (3, 8) if tier == "quick" else (25, 16)
